@@ -331,7 +331,7 @@ func H19m_twin() {
 // H19m1: type confusion. One or two documents whose designated service endpoint is any JSON type or a malformed
 // reference; default depth.
 func H19m1() {
-	w := &hmWorld{n: vParam("docs", 1), confusion: true, junk: 1}
+	w := &hmWorld{n: vParam("cdocs", 1), confusion: true, junk: 1}
 	q := 0
 	t := vChoice(len(hmTypes))
 	maxDepth := DefaultMaxServiceReferenceDepth
